@@ -33,7 +33,7 @@ import (
 func init() { Register("C13", c13Parent, c13Child) }
 
 func c13Parent(r *ev.Run) {
-	r.Rule = "cache states over generated schemas (every column kind, incl. real/boolean map keys) x read paths (Row, Rows, RowByModel by uuid and by index, RowsByModels, RowsByCondition with no / one _uuid / indexed / general conditions, client Get, List, Where.List, WhereAll.List, WhereCache.List, event handler arguments) x mutations of everything reachable from the returned model (scalars, slice elements, append within capacity, map insert/delete, write through pointer); write paths (Create, Update, ApplyCacheUpdate, Populate2) with mutation of the caller's model afterwards; Clone/Equal laws on run-time, hand-written and generated (serverdb.Database) models; a case is one probe; distinct = (path, column kinds of the model, mutation)"
+	r.Rule = "cache states over generated schemas (every column kind, incl. real/boolean map keys) x read paths (Row, Rows, RowByModel by uuid and by index, RowsByModels, RowsByCondition with no / one _uuid / indexed / general conditions, client Get, List, Where.List, WhereAll.List, WhereCache.List, each List into []*T and into []T, event handler arguments) x mutations of everything reachable from the returned model (scalars, slice elements, append within capacity, map insert/delete, write through pointer); write paths (Create, Update, ApplyCacheUpdate, Populate2) with mutation of the caller's model afterwards; Clone/Equal laws on run-time, hand-written and generated (serverdb.Database) models; a case is one probe; distinct = (path, column kinds of the model, mutation)"
 	r.Assume("RowsShallow is exempt by its documentation and is used as the self-check of the detector (a mutation through it must show)")
 	r.RunBatches(ev.BatchOpts{N: r.N(8, 32)})
 }
@@ -177,6 +177,22 @@ func (e *c13env) readPaths() map[string]func() []model.Model {
 		}
 		return l
 	}
+	// List into a slice of values ([]T, not []*T): the elements are struct copies, what they
+	// reach (maps, slices, pointer targets) must still be the caller's own
+	type lister interface {
+		List(ctx context.Context, result interface{}) error
+	}
+	valuesVia := func(c lister) []model.Model {
+		lst := reflect.New(reflect.SliceOf(e.m.Types[e.t.Name]))
+		if err := c.List(context.Background(), lst.Interface()); err != nil {
+			return nil
+		}
+		var l []model.Model
+		for i := 0; i < lst.Elem().Len(); i++ {
+			l = append(l, lst.Elem().Index(i).Addr().Interface())
+		}
+		return l
+	}
 	byName := func() model.Model {
 		_, r := anyRow()
 		if r == nil {
@@ -262,6 +278,17 @@ func (e *c13env) readPaths() map[string]func() []model.Model {
 				l = append(l, lst.Elem().Index(i).Interface())
 			}
 			return l
+		},
+		"client.List(values)":              func() []model.Model { return valuesVia(api) },
+		"client.Where(index).List(values)": func() []model.Model { return valuesVia(api.Where(byName())) },
+		"client.WhereAll.List(values)": func() []model.Model {
+			mdl := reflect.New(e.m.Types[e.t.Name]).Interface()
+			return valuesVia(api.WhereAll(mdl, model.Condition{Field: e.m.FieldPtr(e.t.Name, mdl, "name"), Function: ovsdb.ConditionNotEqual, Value: "no-such-name"}))
+		},
+		"client.WhereCache.List(values)": func() []model.Model {
+			fn := reflect.MakeFunc(reflect.FuncOf([]reflect.Type{reflect.PtrTo(e.m.Types[e.t.Name])}, []reflect.Type{reflect.TypeOf(true)}, false),
+				func(args []reflect.Value) []reflect.Value { return []reflect.Value{reflect.ValueOf(true)} })
+			return valuesVia(api.WhereCache(fn.Interface()))
 		},
 		"client.Where(index).List": func() []model.Model { return listVia(api.Where(byName())) },
 		"client.Where(uuid).List": func() []model.Model {
